@@ -27,6 +27,7 @@ pub fn run(id: &str) -> Result<String, String> {
         "F39" => f39(),
         "F46" => f46_text_lazy_readers(),
         "F51" => f51(),
+        "F59" => f59(),
         _ => Err(format!("unknown witness {id}")),
     }
 }
@@ -764,4 +765,19 @@ fn f51() -> Result<String, String> {
     let src = b"chr1\tsrc\tgene\t10\t20\t.\t+\t.\tID \"\\\"; z \"after\";\n";
     let r = std::panic::catch_unwind(|| { let mut rd = noodles_gtf::io::Reader::new(&src[..]); let a: Vec<bool> = rd.record_bufs().map(|r| r.is_ok()).collect(); let mut rd = noodles_gtf::io::Reader::new(&src[..]); let b: Vec<bool> = rd.line_bufs().map(|r| r.is_ok()).collect(); (a, b) });
     match r { Err(_) => Err("gtf record_bufs() / line_bufs() PANIC on a record line whose attributes do not parse".into()), Ok(_) => Ok("\"cases\":2".into()) }
+}
+
+/// F59: the path-based index writers must report a failure of the final flush: writing to a full device cannot return Ok.
+fn f59() -> Result<String, String> {
+    if !std::path::Path::new("/dev/full").exists() { return Ok("\"cases\":0,\"note\":\"no /dev/full on this system\"".into()); }
+    let mut bad = Vec::new();
+    let tbx = noodles_tabix::Index::builder().set_header(Default::default()).build();
+    if noodles_tabix::fs::write("/dev/full", &tbx).is_ok() { bad.push("tabix"); }
+    if noodles_csi::fs::write("/dev/full", &noodles_csi::Index::default()).is_ok() { bad.push("csi"); }
+    if noodles_bam::bai::fs::write("/dev/full", &noodles_bam::bai::Index::default()).is_ok() { bad.push("bai"); }
+    if bgzf::gzi::fs::write("/dev/full", &bgzf::gzi::Index::from(vec![(1u64, 2u64)])).is_ok() { bad.push("gzi"); }
+    let fai = noodles_fasta::fai::Index::from(vec![noodles_fasta::fai::Record::new("sq0", 4, 5, std::num::NonZero::new(4).unwrap(), std::num::NonZero::new(5).unwrap())]);
+    if noodles_fasta::fai::fs::write("/dev/full", &fai).is_ok() { bad.push("fai"); }
+    if noodles_cram::crai::fs::write("/dev/full", &[]).is_ok() { bad.push("crai"); }
+    if bad.is_empty() { Ok("\"cases\":6".into()) } else { Err(format!("fs::write(\"/dev/full\", &index) returns Ok(()) for: {}", bad.join(", "))) }
 }
